@@ -422,3 +422,71 @@ package val
 //@ lemma verif_lemma_rt_cell
 //@   property C15
 //@   requires len(buf) == 17
+
+//@ func readString
+//@   property C15
+//@   nopanic
+//@   requires len(val) >= 1
+//@   ensures  len(result) == len(val) - 1
+//@   ensures  forall i in 0..len(result): result[i] == val[i]
+//@   modifies nothing
+//@ func writeString
+//@   property C15
+//@   nopanic
+//@   requires len(buf) == len(val) + 1
+//@   ensures  forall i in 0..len(val): buf[i] == val[i]
+//@   ensures  buf[len(val)] == 0
+//@   modifies buf[0:len(buf)]
+//@ lemma verif_lemma_rt_string
+//@   property C15
+//@   requires len(buf) == len(v) + 1
+
+// compare: NULL ordering and, per fixed-width encoding, the order of the decoded values.
+//@ func compare
+//@   property C15
+//@   requires left != nil && right != nil && (typ.Enc == Int8Enc || typ.Enc == Uint8Enc || typ.Enc == YearEnc) ==> len(left) == 1 && len(right) == 1
+//@   requires left != nil && right != nil && (typ.Enc == Int16Enc || typ.Enc == Uint16Enc || typ.Enc == EnumEnc) ==> len(left) == 2 && len(right) == 2
+//@   requires left != nil && right != nil && (typ.Enc == Int32Enc || typ.Enc == Uint32Enc || typ.Enc == Float32Enc) ==> len(left) == 4 && len(right) == 4
+//@   requires left != nil && right != nil && (typ.Enc == Int64Enc || typ.Enc == Uint64Enc || typ.Enc == Float64Enc || typ.Enc == Bit64Enc || typ.Enc == TimeEnc || typ.Enc == SetEnc || typ.Enc == DatetimeEnc) ==> len(left) == 8 && len(right) == 8
+//@   requires left != nil && right != nil && typ.Enc == DateEnc ==> len(left) == 4 && len(right) == 4
+//@   requires left != nil && right != nil && (typ.Enc == StringEnc || typ.Enc == ByteStringEnc) ==> len(left) >= 1 && len(right) >= 1
+//@   requires left != nil && right != nil && typ.Enc == Hash128Enc ==> len(left) == 16 && len(right) == 16
+//@   requires left != nil && right != nil && (typ.Enc == GeomAddrEnc || typ.Enc == BytesAddrEnc || typ.Enc == CommitAddrEnc || typ.Enc == JSONAddrEnc || typ.Enc == StringAddrEnc) ==> len(left) == 20 && len(right) == 20
+//@   requires left != nil && right != nil && typ.Enc == CellEnc ==> len(left) == 17 && len(right) == 17
+//@   ensures left == nil && right == nil ==> result0 == 0 && result1 == nil
+//@   ensures left == nil && right != nil && len(right) > 0 ==> result0 == -1 && result1 == nil
+//@   ensures left != nil && right == nil && len(left) > 0 ==> result0 == 1 && result1 == nil
+//@   ensures left != nil && right != nil && typ.Enc == Int8Enc ==> result1 == nil && result0 == verif_cmp3(int8(left[0]) < int8(right[0]), left[0] == right[0])
+//@   ensures left != nil && right != nil && typ.Enc == Uint8Enc ==> result1 == nil && result0 == verif_cmp3(left[0] < right[0], left[0] == right[0])
+//@   ensures left != nil && right != nil && typ.Enc == YearEnc ==> result1 == nil && result0 == verif_cmp3(verif_year(left[0]) < verif_year(right[0]), verif_year(left[0]) == verif_year(right[0]))
+//@   ensures left != nil && right != nil && typ.Enc == Int16Enc ==> result1 == nil && result0 == verif_cmp3(int16(verif_le16(left)) < int16(verif_le16(right)), verif_le16(left) == verif_le16(right))
+//@   ensures left != nil && right != nil && (typ.Enc == Uint16Enc || typ.Enc == EnumEnc) ==> result1 == nil && result0 == verif_cmp3(verif_le16(left) < verif_le16(right), verif_le16(left) == verif_le16(right))
+//@   ensures left != nil && right != nil && typ.Enc == Int32Enc ==> result1 == nil && result0 == verif_cmp3(int32(verif_le32(left)) < int32(verif_le32(right)), verif_le32(left) == verif_le32(right))
+//@   ensures left != nil && right != nil && typ.Enc == Uint32Enc ==> result1 == nil && result0 == verif_cmp3(verif_le32(left) < verif_le32(right), verif_le32(left) == verif_le32(right))
+//@   ensures left != nil && right != nil && (typ.Enc == Int64Enc || typ.Enc == TimeEnc) ==> result1 == nil && result0 == verif_cmp3(int64(verif_le64(left)) < int64(verif_le64(right)), verif_le64(left) == verif_le64(right))
+//@   ensures left != nil && right != nil && (typ.Enc == Uint64Enc || typ.Enc == Bit64Enc || typ.Enc == SetEnc) ==> result1 == nil && result0 == verif_cmp3(verif_le64(left) < verif_le64(right), verif_le64(left) == verif_le64(right))
+
+//@ func (Tuple).Count
+//@   property C15
+//@   nopanic
+//@   requires len(tup) >= 2
+//@   ensures  result == verif_tup_count(tup)
+//@   modifies nothing
+
+//@ func (Tuple).GetField
+//@   property C15
+//@   nopanic
+//@   requires verif_wf_tuple(tup) && i >= 0
+//@   ensures  i >= verif_tup_count(tup) ==> result == nil
+//@   ensures  i < verif_tup_count(tup) && verif_tup_start(tup, i) == verif_tup_stop(tup, i) ==> result == nil
+//@   ensures  i < verif_tup_count(tup) && verif_tup_start(tup, i) != verif_tup_stop(tup, i) ==> result != nil && len(result) == int(verif_tup_stop(tup, i)) - int(verif_tup_start(tup, i))
+//@   ensures  i < verif_tup_count(tup) && verif_tup_start(tup, i) != verif_tup_stop(tup, i) ==> forall j in 0..len(result): result[j] == tup[int(verif_tup_start(tup, i))+j]
+//@   modifies nothing
+
+//@ func (Tuple).GetOffset
+//@   property C15
+//@   nopanic
+//@   requires verif_wf_tuple(tup) && i >= 0
+//@   ensures  i >= verif_tup_count(tup) ==> result0 == 0 && !result1
+//@   ensures  i < verif_tup_count(tup) ==> result0 == int(verif_tup_start(tup, i)) && result1 == (verif_tup_start(tup, i) != verif_tup_stop(tup, i))
+//@   modifies nothing
